@@ -152,6 +152,7 @@ type Engine struct {
 	usedSpecs    map[string]bool
 	typeIDs      map[string]int
 	strConsts    map[string]string
+	effMemo      map[*ssa.Function]map[string]bool
 	qfacts       []*qfact
 	idxTerms     []string
 	idxSeen      map[string]bool
